@@ -57,6 +57,7 @@
 #include "iora/core/logger.hpp"
 #include "iora/core/timer.hpp"
 #include "iora/network/detail/engine_base.hpp"
+#include <unordered_set>
 #include "iora/network/event_batch_processor.hpp"
 #include "iora/network/transport_types.hpp"
 #include <openssl/err.h>
@@ -1040,6 +1041,16 @@ private:
 
   void handleFdEvent(int fd, std::uint32_t events)
   {
+    // An event reported by this epoll_wait() for an fd that has been closed since
+    // (by a command or by an earlier event of the same batch) is stale. The
+    // kernel hands out the lowest free number, so the fd may already belong to a
+    // NEW session: applying the old session's EPOLLHUP/EPOLLERR/EPOLLIN to it
+    // would close or corrupt a healthy connection. Whatever is pending on the new
+    // fd is reported by the next epoll_wait().
+    if (_fdsClosedThisIteration.count(fd) != 0)
+    {
+      return;
+    }
     auto it = _fdTags.find(fd);
     if (it == _fdTags.end())
       return;
@@ -1181,6 +1192,7 @@ private:
     std::vector<epoll_event> evs((std::size_t)_config.epollMaxEvents);
     while (_running.load())
     {
+      _fdsClosedThisIteration.clear();
       int n = ::epoll_wait(_epollFd, evs.data(), (int)evs.size(), -1);
       if (n < 0)
       {
@@ -1223,6 +1235,7 @@ private:
     {
       try
       {
+        _fdsClosedThisIteration.clear();
         _batchProcessor->processBatchWithSpecialFDs(
           _epollFd, _eventFd, _timerFd,
           // generalHandler — handles session/listener fds
@@ -2475,6 +2488,7 @@ private:
     }
 
     ::close(fd);
+    _fdsClosedThisIteration.insert(fd);
 
     _atomicStats.closed++;
     _atomicStats.sessionsCurrent--;
@@ -2492,6 +2506,7 @@ private:
   {
     delEpoll(lst->fd);
     ::close(lst->fd);
+    _fdsClosedThisIteration.insert(lst->fd);
     auto it = _fdTags.find(lst->fd);
     if (it != _fdTags.end())
     {
@@ -2879,6 +2894,10 @@ private:
       _sslCli = nullptr;
     }
   }
+
+  // fds closed since the current epoll_wait() returned (I/O thread only): events
+  // of that batch that name them are stale - see handleFdEvent().
+  std::unordered_set<int> _fdsClosedThisIteration;
 
   struct AtomicStats
   {
